@@ -303,6 +303,9 @@ def gen_cases(ctx, rng, scale):
             pmax = (N - 1) / 3.0
             perp = rng.choice([pmax, 2.0, min(pmax, 3.5), 1.0 + rng.random() * (pmax - 1.0)])
             add({"kind": "PK", "X": qs(pts), "perp": fl(perp), "K": int(3 * perp)}, "PK/" + kind)
+    for _ in range(max(1, scale // 3)):      # a deeper VP tree
+        pts = distinct_points(rng, 150, 3, "dyadic")
+        add({"kind": "PK", "X": qs(pts), "perp": fl(10.0), "K": 30}, "PK/large")
     # PK with coincident samples (the query is not necessarily the first result of the tree search)
     for _ in range(3 * scale):
         N = rng.choice([8, 12, 20])
@@ -364,7 +367,7 @@ def gen_cases(ctx, rng, scale):
 def gen_api_cases(ctx, rng, quick):
     cases = []
     specs = [(24, 3, 2, 2, 4.0, 0.0), (36, 2, 2, 3, 5.0, 0.5), (12, 2, 1, 2, 2.0, 0.0), (18, 3, 3, 2, 3.0, 0.5),
-             (30, 2, 2, 2, 4.0, 0.01)]
+             (30, 2, 2, 2, 4.0, 0.01), (18, 3, 3, 2, 3.0, 0.0)]
     if not quick:
         # perplexity at most a third of the cluster size: otherwise the neighbourhoods themselves span clusters
         specs += [(60, 4, 2, 3, 6.0, 0.5), (60, 4, 2, 4, 5.0, 0.0), (45, 2, 2, 3, 5.0, 0.2), (30, 3, 3, 2, 5.0, 0.0),
